@@ -583,6 +583,12 @@ func classifyL1(r *evid.Recorder, kind, strategy string, includeImports, include
 	if len(dirs) >= 2 {
 		r.Class(kind + ":>=2-target-directories")
 	}
+	for _, v := range views {
+		if !v.IsImport && isWKT(v.Path) {
+			r.Class(kind + ":target-file-at-well-known-type-path")
+			break
+		}
+	}
 	if nonWKTImport {
 		r.Class(kind + ":has-non-wkt-import")
 	}
@@ -610,7 +616,31 @@ func genSrc(t *rapid.T, thorough bool) Src {
 	if thorough {
 		cfg.MaxFiles, cfg.MaxPackages = 8, 5
 	}
-	return srcOf(protogen.GenWorkspace(t, cfg))
+	src := srcOf(protogen.GenWorkspace(t, cfg))
+	supplyWKT(t, &src)
+	return src
+}
+
+// suppliedWKT are workspace copies of well-known-type paths (a vendored protobuf tree, a patched copy):
+// wire-compatible with the built-in files, so every generated import of them still links.
+var suppliedWKT = map[string]string{
+	"google/protobuf/duration.proto":  "syntax = \"proto3\";\npackage google.protobuf;\n// workspace copy.\nmessage Duration {\n  int64 seconds = 1;\n  int32 nanos = 2;\n  string verif_extra = 3;\n}\n",
+	"google/protobuf/empty.proto":     "syntax = \"proto3\";\npackage google.protobuf;\n// workspace copy.\nmessage Empty {\n}\n",
+	"google/protobuf/timestamp.proto": "syntax = \"proto3\";\npackage google.protobuf;\n// workspace copy.\nmessage Timestamp {\n  int64 seconds = 1;\n  int32 nanos = 2;\n}\n",
+}
+
+// supplyWKT puts 1-2 files at well-known-type paths into a module of the workspace (one case in four):
+// there they are ordinary source files of that module (targets, or imports if the module is a dependency).
+func supplyWKT(t *rapid.T, src *Src) {
+	if rapid.IntRange(0, 3).Draw(t, "supply-wkt") != 0 {
+		return
+	}
+	m := src.Mods[rapid.IntRange(0, len(src.Mods)-1).Draw(t, "wkt-module")]
+	paths := protogen.SortedPaths(suppliedWKT)
+	n := rapid.IntRange(1, 2).Draw(t, "wkt-n")
+	for _, p := range rapid.Permutation(paths).Draw(t, "wkt-perm")[:n] {
+		src.Files[m.Dir][p] = suppliedWKT[p]
+	}
 }
 
 func TestRequests(t *testing.T) {
